@@ -50,11 +50,15 @@ func levelMatch(f, ch []string) bool {
 	return true
 }
 
-func newStore(kind string) (storage.Storage, func(), error) {
+func newStore(kind string, retain uint32) (storage.Storage, func(), error) {
+	cfg := map[string]interface{}{}
+	if retain != 0 {
+		cfg["retain"] = float64(retain)
+	}
 	switch kind {
 	case "inmemory":
 		s := storage.NewInMemory(nil)
-		if err := s.Configure(nil); err != nil {
+		if err := s.Configure(cfg); err != nil {
 			return nil, nil, err
 		}
 		return s, func() { s.Close() }, nil
@@ -64,7 +68,8 @@ func newStore(kind string) (storage.Storage, func(), error) {
 			return nil, nil, err
 		}
 		s := storage.NewSSD(nil)
-		if err := s.Configure(map[string]interface{}{"dir": d}); err != nil {
+		cfg["dir"] = d
+		if err := s.Configure(cfg); err != nil {
 			os.RemoveAll(d)
 			return nil, nil, err
 		}
@@ -77,7 +82,7 @@ const replyCap = 65536
 func TestC06(t *testing.T) {
 	rec := vk.New("C06", "query")
 	defer rec.Finish(t)
-	rec.Rule("case = one store history (30-60 messages: two tenants whose contract^hash(level1) key prefixes collide, nested channels, many messages per second, live and expired, payloads that hit the 64 KiB reply cap) on a real provider (inmemory / ssd) " +
+	rec.Rule("case = one store history (30-60 messages: two tenants whose contract^hash(level1) key prefixes collide, nested channels, many messages per second, live and expired, retained messages under a configured retention period, payloads that hit the 64 KiB reply cap) on a real provider (inmemory / ssd) " +
 		"followed by ~60 queries (filters shorter/longer than the channels, '+'/'#' levels, windows inside/overlapping/outside, limits 0,1,k,>stored,10^5, continuation driven to exhaustion); every returned frame is compared as a set with the model answer, " +
 		"its order checked for non-decreasing time, pages checked for disjointness and their union for equality with the un-paged answer; non-trivial = >=10 queries with a non-empty expected answer, >=1 query cut by the limit, >=1 paginated query; distinct = hash of stores and queries")
 	n := vk.N(120, 5000)
@@ -94,7 +99,12 @@ func runC06(rec *vk.Rec, ci int) {
 	if ci%2 == 1 {
 		kind = "ssd"
 	}
-	st, cleanup, err := newStore(kind)
+	retain := []uint32{0, 3600, 86400, 40000}[r.Intn(4)] // configured retention for 'retained' messages (0 = default 30 days)
+	effRetain := retain
+	if effRetain == 0 {
+		effRetain = 2592000
+	}
+	st, cleanup, err := newStore(kind, retain)
 	if err != nil {
 		rec.Inconclusive(err.Error())
 		return
@@ -142,6 +152,21 @@ func runC06(rec *vk.Rec, ci int) {
 				ttl = uint32(r.Range(0, int(age-7200)))
 			}
 		}
+		storeTTL := ttl
+		if r.Chance(20) { // a retained message: stored with the configured retention
+			storeTTL = message.RetainedTTL
+			ttl = effRetain
+			age := now - tm
+			switch {
+			case age+7200 <= int64(effRetain):
+				live = true
+			case age >= int64(effRetain)+7200:
+				live = false
+			default: // too close to the expiry instant: move the message so that it is clearly expired
+				tm = now - int64(effRetain) - 7200 - int64(r.Intn(1000))
+				live = false
+			}
+		}
 		size := r.Range(1, 200)
 		if r.Chance(12) {
 			size = r.Range(15000, 30000)
@@ -151,7 +176,7 @@ func runC06(rec *vk.Rec, ci int) {
 		ssid := ssidOf(tn.c, lv)
 		m := message.New(ssid, []byte(strings.Join(lv, "/")+"/"), payload)
 		m.ID.SetTime(tm)
-		m.TTL = ttl
+		m.TTL = storeTTL
 		s := &stored{contract: tn.c, levels: lv, t: tm, ttl: ttl, payload: payload, id: append(message.ID(nil), m.ID...), channel: string(m.Channel), idx: i}
 		if err := st.Store(m); err != nil {
 			rec.Violation(ci, "store-error", err.Error(), nil)
@@ -160,7 +185,7 @@ func runC06(rec *vk.Rec, ci int) {
 		if live {
 			log = append(log, s)
 		}
-		desc = append(desc, fmt.Sprintf("store c=%x %s t=now%+d ttl=%d size=%d live=%v", tn.c, s.channel, tm-now, ttl, size, live))
+		desc = append(desc, fmt.Sprintf("store c=%x %s t=now%+d ttl=%d retained=%v size=%d live=%v", tn.c, s.channel, tm-now, ttl, storeTTL == message.RetainedTTL, size, live))
 		rec.Inc("stores")
 	}
 	// model answer
@@ -358,7 +383,7 @@ func runC06(rec *vk.Rec, ci int) {
 			}
 		}
 	}
-	h := []interface{}{kind}
+	h := []interface{}{kind, retain}
 	for _, d := range desc {
 		h = append(h, d)
 	}
